@@ -49,6 +49,11 @@ Definition value_eqb (a b : value) : bool :=
   end.
 
 Inductive aclass := AMesh | AImage | AAudio.
+(* asset kinds; materials travel inline, the other three by URL + HTTP download *)
+Inductive akind := KMaterial | KClass (c : aclass).
+Definition kind_num (k : akind) : N :=
+  match k with KMaterial => 0 | KClass AMesh => 1 | KClass AImage => 2 | KClass AAudio => 3 end.
+Definition akey (k : akind) (a : N) : N := 4 * a + kind_num k.
 
 Inductive msg :=
 | MSpawn (u : uuid)
@@ -56,7 +61,7 @@ Inductive msg :=
 | MDelete (u : uuid)
 | MComp (u : uuid) (t : tyid) (v : value)
 | MMaterial (a : uuid) (v : N)
-| MAsset (k : aclass) (a : uuid) (owner : peer) (content : N)   (* url at owner's endpoint; content = what that endpoint serves at send time (ghost) *)
+| MAsset (k : aclass) (a : uuid) (owner : peer)    (* MeshUpdated / ImageUpdated / AudioUpdated { id, url }: url at owner's endpoint *)
 | MPromote
 | MNewHost (p : peer)
 | MReqInit
@@ -126,6 +131,7 @@ Inductive cmd :=
 | CStartClientTo (h : peer) (set_flag : bool)     (* NewHost: insert a client transport towards h *)
 | CRemoveClientTransport
 | CRemoveServerTransport
+| CAppDespawnUuid (u : uuid)                      (* application system: despawn the entity carrying uuid u, if any *)
 | CAppDespawn (e : ent)                           (* application system: commands.entity(e).despawn() *)
 | CAppInsert (e : ent) (t : tyid) (v : value).    (* application system: commands.entity(e).insert(T(v)) — panics if gone *)
 
